@@ -343,7 +343,8 @@ pub fn c14(fx: &mut Fx) {
 // C17: router
 // ---------------------------------------------------------------------------------------
 pub fn c17(fx: &mut Fx) {
-    let paths: [&[u8]; 8] = [b"", b"/", b"/a", b"/a/b", b"/a:b", b"a", b"/a/", b"/b"];
+    // origin-form paths that merely CONTAIN a scheme separator or a second slash are ordinary paths
+    let paths: [&[u8]; 14] = [b"", b"/", b"/a", b"/a/b", b"/a:b", b"a", b"/a/", b"/b", b"/a://b/b", b"/a://b", b"/x://a", b"//b", b"/http://h/a", b"/b?x=http://h/a"];
     let prefixes: [&[u8]; 4] = [b"", b"/api", b"/a", b"/api/v1"];
     let methods = ["GET", "PUT", "PATCH"];
     let n = if fx.thorough { 5000 } else { 500 };
@@ -358,10 +359,11 @@ pub fn c17(fx: &mut Fx) {
             .collect();
         let mut requests = vec![];
         for _ in 0..8 {
-            let mut uri: Vec<u8> = match fx.rng.gen_range(0..4) {
-                0 => vec![],
-                1 => b"http://localhost".to_vec(),
-                2 => b"http://h:80".to_vec(),
+            let mut uri: Vec<u8> = match fx.rng.gen_range(0..7) {
+                0 | 1 | 2 => vec![],
+                3 => b"http://localhost".to_vec(),
+                4 => b"http://h:80".to_vec(),
+                5 => b"https://h".to_vec(),
                 _ => b"http:/".to_vec(),
             };
             if fx.rng.gen_bool(0.8) {
